@@ -636,6 +636,11 @@ func setup(r *mon.Run) {
 		"or beyond the limit of the small front only; broken messages of 60 B / 3 KB / 40 KB with every field set), sent by a raw h2c client to the back-end and through larking (gRPC and gRPC-web, every shape): " +
 		"a call the back-end's own server refuses must not end OK through larking and the back-end gets nothing but the well-formed messages; each fault call is followed by three ordinary compressed scripts " +
 		"(any plan structure with 1-3 messages, drawn attributes) executed both ways and compared as usual, eight such rounds at a time (scratch buffers and (de)compressors of the front are process-wide). " +
+		"Back-end availability: outages, each with a back-end, Mux (RegisterConn) and front of its own: after ordinary scripts the back-end is taken away " +
+		"(server stopped / stopped gracefully / its address accepts connections and drops them / is answered by something that is not a gRPC server); then for every front (gRPC, gRPC-web, HTTP incl. in-process) x shape x " +
+		"client deadline class (4 s / none / 5 min; drawn message count, metadata, compression) a call is made on the back-end's own connection with default call options and through larking: " +
+		"the proxied call must end, without a reply, with the status code of the direct call (HTTP: its documented status and google.rpc.Status body); the first call after the loss runs alone; " +
+		"differences count when a re-execution of the cell shows them again; then a server is started on the same address, both channels are waited READY and ordinary scripts are executed both ways and compared as usual. " +
 		"Each script runs twice (direct / through larking); distinct = front x shape x plan family x message count x outcome x half-close-seen x metadata class."
 	r.Floor = 40
 	r.Assume("grpc-go client/server (direct run) define the reference behaviour of a call script")
@@ -835,6 +840,7 @@ func RunC10(r *mon.Run) {
 	}
 	runBodyCases(r, e)
 	runZFaultCases(r, e)
+	runAvailCases(r)
 	finish(r, e)
 }
 
@@ -846,6 +852,12 @@ func Replay(r *mon.Run, raw json.RawMessage) {
 		Body   *BodyCase `json:"body_case"`
 		Fault  *ZCase    `json:"compression_fault"`
 		After  *ZCase    `json:"after_compression_fault"`
+		Avail  *ACell    `json:"availability_cell"`
+	}
+	if err := json.Unmarshal(raw, &doc); err == nil && doc.Avail != nil {
+		replayCell(r, *doc.Avail)
+		scanRaceLog(r)
+		return
 	}
 	if err := json.Unmarshal(raw, &doc); err == nil && doc.Body != nil {
 		e, err := NewEnv()
